@@ -3,7 +3,7 @@ from vt import chartgen as cg, qrun, qoracle, hosts
 
 
 def gen_case(rng, tier, want_acts=True, allow_defer=True, long_run=False, hosts_=('queued', 'queued', 'ao'),
-             spied=(True,), instrumented=(True,), live=False, n_ops=None, clears=False):
+             spied=(True,), instrumented=(True,), live=False, n_ops=None, clears=False, decos=(None,), restarts=False):
   spec = cg.gen_spec(rng, nmax=rng.choice([4, 8, 12]), side_acts=want_acts, name_style=rng.choice(cg.NAME_STYLES), clause_queries=rng.random() < 0.3)
   if not allow_defer:
     for r in spec['react'].values():
@@ -13,6 +13,13 @@ def gen_case(rng, tier, want_acts=True, allow_defer=True, long_run=False, hosts_
       spec['acts'][k] = [a for a in spec['acts'][k] if a[0] not in ('defer', 'recall')]
   cfg = {'host': rng.choice(hosts_), 'spied': rng.choice(spied), 'instrumented': rng.choice(instrumented),
          'named': rng.random() < 0.7, 'live_spy': live and rng.random() < 0.7, 'live_trace': live and rng.random() < 0.7}
+  if len(decos) > 1:
+    # handler styles: a user's functools.wraps decorator under spy_on ('spy-over-wraps') or two of them stacked ('wraps-twice')
+    cfg['deco'] = rng.choice(decos)
+    if cfg['deco'] == 'spy-over-wraps':
+      cfg['spied'] = True
+    elif cfg['deco']:
+      cfg['spied'] = False
   if cfg['host'] == 'ao':
     spec['acts'] = {}     # no posts during start_at: the start snapshot of a threaded object must be stable
     if rng.random() < 0.3:
@@ -33,6 +40,10 @@ def gen_case(rng, tier, want_acts=True, allow_defer=True, long_run=False, hosts_
     # the client empties the full spy / the trace once or twice, early in the run (so that long runs fill the rings again)
     for _ in range(rng.randint(1, 2)):
       ops.insert(rng.randrange(0, max(1, len(ops) // 4)), (rng.choice(['clear_spy', 'clear_spy', 'clear_trace']), None))
+  if restarts and cfg['host'] != 'ao' and not (cfg['live_spy'] or cfg['live_trace']) and rng.random() < 0.3:
+    # the SAME chart object is started again once or twice in the middle of the run (start_at in a random state)
+    for _ in range(rng.randint(1, 2)):
+      ops.insert(rng.randrange(0, len(ops) + 1), ('restart', rng.randrange(spec['n'])))
   return spec, start, ops, cfg
 
 
